@@ -377,14 +377,18 @@ def expand_block(blk, gen, unit_id):
     if blk.slice:
         kind = 'statement-slice'
         a = rf.unique_line(blk.slice[0], body_lo, body_hi, 'slice start')
-        b = rf.unique_line(blk.slice[1], body_lo, body_hi, 'slice end')
-        if b < a:
-            raise ExtractError('lost anchor: slice end before start in %s' % blk.label)
-        e = rf.stmt_end(b, body_hi)
-        # slice must start at a statement boundary: take whole lines
-        nl = rf.text.find('\n', e)
-        if rf.masked[e:nl].strip():
-            raise ExtractError('slice end shares a line with other code in %s' % blk.label)
+        if blk.slice[1] == '$':
+            # up to the end of the function body (includes a trailing result expression)
+            nl = line_start(rf.text, body_hi) - 1
+        else:
+            b = rf.unique_line(blk.slice[1], body_lo, body_hi, 'slice end')
+            if b < a:
+                raise ExtractError('lost anchor: slice end before start in %s' % blk.label)
+            e = rf.stmt_end(b, body_hi)
+            # slice must start at a statement boundary: take whole lines
+            nl = rf.text.find('\n', e)
+            if rf.masked[e:nl].strip():
+                raise ExtractError('slice end shares a line with other code in %s' % blk.label)
         body = rf.text[a:nl]
         base = line_of(rf.text, a)
         if not blk.early_return:
